@@ -47,6 +47,9 @@ Expected(e) ==
                               IN  Scale4(2, QMul(a.r, B.r)) \o QAdd(Scale4(2, QMul(a.r, B.d)), QMul(a.d, B.r))
     [] e.fn = "udqmul"     -> LET a == DQFromRigid2(Mk(e.q1, e.t1, e.d1))  b == DQFromRigid2(Mk(e.q2, e.t2, e.d2))
                               IN  QMul(a.r, b.r) \o QAdd(QMul(a.r, b.d), QMul(a.d, b.r))
+    \* the conjugate of the unit dual quaternion of a rigid motion conjugates BOTH parts (it stays the plain dual
+    \* quaternion conjugate); logged as sqrt(N(q1)) d1 times the real part and twice that times the dual part
+    [] e.fn = "udqconj"    -> LET a == DQFromRigid2(Mk(e.q1, e.t1, e.d1)) IN QConj(a.r) \o QConj(a.d)
     [] OTHER               -> << >>
 
 \* the 3-vector form stands for the quaternion with non-negative scalar part: when the scalar part of
@@ -55,7 +58,7 @@ Accepts(e) ==
   \/ e.res = Expected(e)
   \/ (e.fn = "vvmul_n" /\ QMul(e.a, e.b)[1] < 0 /\ e.res = Neg3(Expected(e)))
   \* a unit dual quaternion and its negative are the same motion: the WHOLE 8-vector may change sign, never one half
-  \/ (e.fn = "udqmul" /\ e.res = [i \in 1..8 |-> -Expected(e)[i]])
+  \/ (e.fn \in {"udqmul", "udqconj"} /\ e.res = [i \in 1..8 |-> -Expected(e)[i]])
 
 Init == l = 1 /\ bad = <<>>
 Next ==
